@@ -105,17 +105,19 @@ func outboundMappedType(stg schema.UnionRepresentation_Keyed, key string) string
 	return mappedKey
 }
 
-func inboundMappedType(typ *schema.TypeUnion, stg schema.UnionRepresentation_Keyed, key string) string {
+// inboundMappedType finds the member whose discriminant is the given key;
+// a key that is no member's discriminant (a member's type name, say) is not a key of the representation.
+func inboundMappedType(typ *schema.TypeUnion, stg schema.UnionRepresentation_Keyed, key string) (string, bool) {
 	// TODO: can't do a "reverse" lookup... needs better API probably.
 	for _, member := range typ.Members() {
 		mappedKey := stg.GetDiscriminant(member)
 		if key == mappedKey {
 			// println(key, "rev-mapped to", field.Name())
-			return member.Name()
+			return member.Name(), true
 		}
 	}
 	// println(key, "had no mapping")
-	return key // fallback to the same key
+	return "", false
 }
 
 // asKinded can be called on a kinded union node to obtain a node
@@ -154,7 +156,13 @@ func (w *_nodeRepr) LookupByString(key string) (datamodel.Node, error) {
 		}
 		return reprNode(v), nil
 	case schema.UnionRepresentation_Keyed:
-		revKey := inboundMappedType(w.schemaType.(*schema.TypeUnion), stg, key)
+		revKey, ok := inboundMappedType(w.schemaType.(*schema.TypeUnion), stg, key)
+		if !ok {
+			return nil, schema.ErrInvalidKey{
+				TypeName: w.schemaType.Name(),
+				Key:      basicnode.NewString(key),
+			}
+		}
 		v, err := (*_node)(w).LookupByString(revKey)
 		if err != nil {
 			return nil, err
@@ -1231,7 +1239,15 @@ func (w *_unionAssemblerRepr) AssembleValue() datamodel.NodeAssembler {
 	switch stg := reprStrategy(w.schemaType).(type) {
 	case schema.UnionRepresentation_Keyed:
 		key := w.curKey.val.String()
-		revKey := inboundMappedType(w.schemaType, stg, key)
+		revKey, ok := inboundMappedType(w.schemaType, stg, key)
+		if !ok {
+			return _errorAssembler{
+				schema.ErrNotUnionStructure{
+					TypeName: w.schemaType.Name(),
+					Detail:   fmt.Sprintf("no member with discriminant %q", key),
+				},
+			}
+		}
 		w.curKey.val.SetString(revKey)
 
 		valAsm := (*_unionAssembler)(w).AssembleValue()
